@@ -7,7 +7,8 @@
  *   X id=<n> cid=<client identity> ckey=<client key> sk=<id:key,id:key,...> hint=<server hint> acc=<1: client accepts the hint>
  *     nq=<requests queued during the handshake> inj=<0 | 1 cleartext CoAP from a new peer | 2 cleartext CoAP from the client's address>
  *     rel=<release the client session after this many ms of virtual time; 0 = never> idcb=<1: server checks the identity, 0: one key for all>
- *     drop=<indices of datagrams to lose, e.g. 0,3>
+ *     drop=<indices of datagrams to lose, e.g. 0,3>   dup=<indices of datagrams the network delivers twice (the copy right behind the original)>
+ *     mute=1: every application-data record from the server is lost (alerts pass)   sclose=<ms>: the server context is freed after that time
  *     snik=<name:key,...>  the server keeps per-server-name keys (validate_sni_call_back; a name not listed is refused)   sni=<name the client asks for>
  *     warm=<name>  before the judged session another client session asks for that name with the right key and completes one exchange (not traced):
  *                  the server has then seen the name before
@@ -27,7 +28,7 @@ static int nsk, acc, nq, inj, rel, idcb, emitted, nsni, muted;
 static char sni[64], warm[64], snin[MAXK][64], snikey[MAXK][64];
 static coap_dtls_spsk_info_t sni_info;
 static coap_dtls_cpsk_info_t winfo;       /* what the warm-up session presents */
-static int drops[32], ndrops;
+static int drops[32], ndrops, dups[32], ndups, mute_srv, sclose;
 static coap_dtls_cpsk_info_t cinfo;
 static coap_bin_const_t skeybin;
 static int in_teardown;
@@ -117,6 +118,8 @@ static void on_tx(int node, coap_session_t *s, const sim_dgram_t *dg, sim_verdic
   idx = emitted++;
   fprintf(sim_trace, "{\"e\":\"Wire\",\"i\":%d,\"from\":\"%s\",\"b0\":%d,\"b1\":%d,\"len\":%zu}\n", idx, (s && s->context == cctx) ? "c" : "s",
           dg->len ? dg->data[0] : -1, dg->len > 1 ? dg->data[1] : -1, dg->len);
+  if (mute_srv && s && s->context == sctx && dg->len && dg->data[0] == 23) { v->copies = 0; fprintf(sim_trace, "{\"e\":\"Dropped\",\"i\":%d}\n", idx); return; }
+  for (i = 0; i < ndups; i++) if (dups[i] == idx) { v->copies = 2; v->delay[1] = 0; fprintf(sim_trace, "{\"e\":\"Duplicated\",\"i\":%d}\n", idx); }
   for (i = 0; i < ndrops; i++) if (drops[i] == idx) { v->copies = 0; fprintf(sim_trace, "{\"e\":\"Dropped\",\"i\":%d}\n", idx); }
 }
 static int prng(void *out, size_t len) {
@@ -145,7 +148,7 @@ static void run_case(int id) {
   sim_reset(1000);
   emitted = 0;
   fprintf(sim_trace, "{\"e\":\"Reset\",\"id\":%d,\"cid\":\"%s\",\"ckey\":\"%s\",\"hint\":\"%s\",\"acc\":%s,\"idcb\":%s,\"nq\":%d,\"inj\":%d,\"rel\":%d,\"ndrops\":%d,\"snicb\":%s,\"sni\":\"%s\",\"warm\":\"%s\",\"table\":[",
-          id, cid, ckey, hint, acc ? "true" : "false", idcb ? "true" : "false", nq, inj, rel, ndrops, nsni ? "true" : "false", sni, warm);
+          id, cid, ckey, hint, acc ? "true" : "false", idcb ? "true" : "false", nq, inj, rel, ndrops + (mute_srv ? 1 : 0), nsni ? "true" : "false", sni, warm);
   for (i = 0; i < nsk; i++) fprintf(sim_trace, "%s[\"%s\",\"%s\"]", i ? "," : "", skid[i], skkey[i]);
   fputs("],\"snitable\":[", sim_trace);
   for (i = 0; i < nsni; i++) fprintf(sim_trace, "%s[\"%s\",\"%s\"]", i ? "," : "", snin[i], snikey[i]);
@@ -229,6 +232,12 @@ static void run_case(int id) {
     fputs("{\"e\":\"Clear\"}\n", sim_trace);
     sim_inject(&from, &srv_addr, b, 7, 0, -1);
   }
+  if (sclose > 0) {
+    /* the server goes away (its close_notify reaches the client) while the client is still waiting */
+    sim_run(sim_now + (uint64_t)sclose);
+    fputs("{\"e\":\"ServerGone\"}\n", sim_trace);
+    sim_remove_node(sctx); coap_free_context(sctx); sctx = NULL;
+  }
   if (rel > 0) {
     sim_run(sim_now + (uint64_t)rel);
     fputs("{\"e\":\"Release\"}\n", sim_trace);
@@ -241,7 +250,7 @@ static void run_case(int id) {
   if (csess) coap_session_release(csess);
   csess = NULL;
   sim_remove_node(cctx); coap_free_context(cctx); cctx = NULL;
-  sim_remove_node(sctx); coap_free_context(sctx); sctx = NULL;
+  if (sctx) { sim_remove_node(sctx); coap_free_context(sctx); sctx = NULL; }
   in_teardown = 0;
   fputs("{\"e\":\"End\"}\n", sim_trace);
   fflush(sim_trace);
@@ -279,6 +288,11 @@ int main(int argc, char **argv) {
       field(line, " drop=", buf, sizeof(buf));
       ndrops = 0;
       for (t = strtok(buf, ","); t && ndrops < 32; t = strtok(NULL, ",")) drops[ndrops++] = atoi(t);
+      field(line, " mute=", buf, sizeof(buf)); mute_srv = atoi(buf);
+      field(line, " sclose=", buf, sizeof(buf)); sclose = atoi(buf);
+      field(line, " dup=", buf, sizeof(buf));
+      ndups = 0;
+      for (t = strtok(buf, ","); t && ndups < 32; t = strtok(NULL, ",")) dups[ndups++] = atoi(t);
       field(line, " sk=", buf, sizeof(buf));
       nsk = 0;
       for (t = strtok(buf, ","); t && nsk < MAXK; t = strtok(NULL, ",")) {
